@@ -552,7 +552,11 @@ func c11clients(c *Ctx, fl *featLab) {
 		}{{"empty", nil, "application/json"}, {"valid-json", valid, "application/json"}, {"valid-proto", wire(full), "application/x-protobuf"}, {"truncated-json", valid[:len(valid)/2], "application/json"},
 			{"garbage", []byte("\x00\xff<html>oops</html>"), "text/html"}, {"json-array", []byte("[1,2]"), "application/json"}, {"json-null", []byte("null"), "application/json"}, {"json-string", []byte(`"x"`), "application/json"},
 			{"validation-error", ve, "application/json"}, {"proto-body-json-ct", wire(full), "application/json"}, {"json-body-proto-ct", valid, "application/x-protobuf"},
-			{"huge", []byte(`{"label":"` + strings.Repeat("y", 4<<20) + `"}`), "application/json"}, {"deep", []byte(strings.Repeat("[", 100000)), "application/json"}, {"no-content-type", valid, ""}}
+			{"huge", []byte(`{"label":"` + strings.Repeat("y", 4<<20) + `"}`), "application/json"}, {"deep", []byte(strings.Repeat("[", 100000)), "application/json"}, {"no-content-type", valid, ""},
+			// tiny and degenerate bodies: what http.Error(w, "", code) or a proxy writes
+			{"newline", []byte("\n"), "text/plain; charset=utf-8"}, {"crlf", []byte("\r\n"), "application/json"}, {"spaces", []byte("  \t "), "application/json"}, {"one-byte", []byte("{"), "application/json"},
+			{"bom-json", append([]byte("\xef\xbb\xbf"), valid...), "application/json"}, {"leading-space-json", append([]byte(" \n"), valid...), "application/json"}, {"empty-object", []byte("{}"), "application/json"},
+			{"zero-byte", []byte{0}, "application/x-protobuf"}, {"json-number", []byte("42"), "application/json"}}
 		for _, st := range statuses {
 			for bi, b := range bodies {
 				if !c.Thorough() && (st+bi+int(c.Seed))%3 != 0 && !(st == 200 || st == 400 || st == 500) {
